@@ -108,6 +108,9 @@ def truthful_violation(ps, fs, verify_parsed, repair_parsed):
         present = sum(1 for (_, _, s) in sl if present_somewhere(ps, fs, s))
         if ca["usable"] > present:
             return "%d slices reported usable but only %d are present" % (ca["usable"], present)
+        if ps.volumes and ca["pusable"] > P.intact_block_count(ps, fs):
+            # "recovery blocks reported usable really are intact": counted by a byte search for the complete original packets
+            return "%d recovery blocks reported usable but only %d complete recovery packets are present beside the index" % (ca["pusable"], P.intact_block_count(ps, fs))
         if ca["needed"] == 0 and P.originals_ok(ps, fs):
             return "no repair needed reported although files differ: %s" % P.originals_ok(ps, fs)
     protected = {ps.paths[n]: ps.files[n] for n in ps.files}
